@@ -3,6 +3,7 @@ import DM.Drv.C06
 import DM.Spec.Stream
 import DM.Model.Symbol
 import DM.Spec.Opt
+import DM.Model.EncPrefix
 /-
 Oracles evaluated on the implementation's encoder output (properties C02, C13, C16, C18,
 C19, C11). One request describes a whole encoding; `flags` selects the checks.
@@ -201,6 +202,14 @@ def encOp (args : List String) : Option String :=
                          macros := mac == "1", fnc1 := fnc1 == "1",
                          eci := if eci == "-" then none else some eci.toNat!, input := unhex input }
     some (encOracle flags c resp)
+  | ["mprefix", m, f, d] =>
+    match macroPrefix (unhex d) (m == "1") (f == "1") with
+    | .ok cw body => some s!"ok:{hex cw}:{hex body}"
+    | .panic => some "panic"
+  | ["apad", s, a, pre] =>
+    match addPadding (unhex pre) (a == "1") (dataCw s.toNat!) with
+    | some v => some (hex v)
+    | none => some "panic"
   | ["specdec", cw] =>
     match Stream.decode (unhex cw) with
     | .ok d => some s!"ok:{hex d.bytes}:{String.ofList (d.trace.map Mode.char)}"
